@@ -4,8 +4,8 @@ from __future__ import annotations
 from . import c01_check as K
 
 PROP = "C01"
-LEAN_TARGETS = ["Asynkit.Props.C01", "Asynkit.Lemmas.GenEqC01", "Asynkit.Lemmas.GenEqC01W", "Asynkit.Lemmas.GenEqAbcStd"]
-PROPS_FILES = ["Asynkit/Props/C01.lean", "Asynkit/Lemmas/GenEqC01.lean", "Asynkit/Lemmas/GenEqC01W.lean", "Asynkit/Lemmas/GenEqAbcStd.lean"]
+LEAN_TARGETS = ["Asynkit.Props.C01", "Asynkit.Lemmas.GenEqC01", "Asynkit.Lemmas.GenEqC01W", "Asynkit.Lemmas.GenEqAbcStd", "Asynkit.Lemmas.GenEqContextlib"]
+PROPS_FILES = ["Asynkit/Props/C01.lean", "Asynkit/Lemmas/GenEqC01.lean", "Asynkit/Lemmas/GenEqC01W.lean", "Asynkit/Lemmas/GenEqAbcStd.lean", "Asynkit/Lemmas/GenEqContextlib.lean"]
 DRIVERS = ["Eager"]
 THEOREM = "Asynkit.C01.eager_equiv_task"
 TRUSTED = [
